@@ -246,7 +246,10 @@ def run(ctx):
     t1 = time.time()
     q = ctx.quick
     may_die = {"allow_fail": True}          # a dying recorder is an observation: see crashed_sessions
-    jobs = [("c16", ["--mode", "gen", "--in", h], "gen%d.ndjson" % i, may_die) for i, (h, _) in enumerate(hists)]
+    # <= 2 operations: every history in both endiannesses; <= 3 writes (thorough): endianness alternates
+    # with the history index; placements rotate with the history index
+    jobs = [("c16", ["--mode", "gen", "--in", h, "--endian", "both" if i == 0 else "alternate"], "gen%d.ndjson" % i, may_die)
+            for i, (h, _) in enumerate(hists)]
     nrand, writes = (300, 60) if q else (4000, 60)
     per = 100 if q else 250
     for i in range(nrand // per):
@@ -262,7 +265,7 @@ def run(ctx):
     ctx.extra["exhaustive"] = True
     ctx.extra["exhaustive_scope"] = (
         "every history of <= %d region writes set_memory(start 0..6, length 0..4) (empty, nested, adjacent, identical-start "
-        "regions included)%s, replayed in both endiannesses with the window at address 8 / across 2^32 / across 2^63 "
+        "regions included)%s, replayed in both endiannesses (3-write histories: alternating) with the window at address 8 / across 2^32 / across 2^63 "
         "(rotating), each followed by get8, permissions, get(16/32/64), get32 at every address of the window +- 8 and sections()"
         % (2 if q else 3, "; <= 2 operations including set32 within a region"))
     ctx.extra["generated_histories"] = sum(n for _, n in hists)
